@@ -2,6 +2,7 @@ import MlModel.Lemmas.Piter2Shared
 import MlModel.Lemmas.Piter2Frame
 import MlModel.Lemmas.Piter2Live
 import MlModel.Lemmas.Piter2Final
+import MlModel.Lemmas.Piter2Data
 /-!
 # C13, the two-level composition `piter(iterator_fn, input_iterators=[i_1 … i_n], max_parallism=P)`
 
@@ -39,7 +40,10 @@ pass-through `fwd`):
   is finished, an unstarted task the pool holds back, waiting for `lock1`, or parked on a condition variable;
 * `C13_two_no_deadlock` — **deadlock freedom under `PoolOK`**: a reachable configuration without enabled step is
   final (every schedule, capacity, batch size, `num_steps`, failing inputs / `iterator_fn`, FIFO or any-order pool);
-* `C13_two_stuck_no_unstarted` — under `PoolOK` no task is left unstarted in a quiescent configuration.
+* `C13_two_stuck_no_unstarted` — under `PoolOK` no task is left unstarted in a quiescent configuration;
+* `C13_two_fifo`, `C13_two_output_exactly_once` — conservation, the part proved: inside EACH queue nothing is
+  duplicated, dropped or reordered (`produced = dequeued ++ q`), and every element put into the OUTPUT queue is, exactly
+  once, delivered to the caller / dropped by the caller's final raise or early stop / still queued.
 
 NOT proved (full statements, kept visible):
 * conservation across both levels: `theorem C13_two_multiset : Reachable F c0 c → c.allDone → delivered outputs of the
@@ -289,6 +293,34 @@ theorem C13_two_own_pool_ok (bufferSize : Nat) (numSteps : Option Nat) (fwd : Bo
         maxBatch (inputs.length + max gens.length 1) numSteps fwd false inputs gens) := by
   have hl : 0 < inputs.length := List.length_pos_iff.mpr hn
   refine .inr ⟨?_, .inr ?_⟩ <;> simp only [initF, Piter2.init] <;> omega
+
+/-- **FIFO conservation inside each queue of the composition** (every schedule): whatever was put into the input queue
+(resp. the output queue) and has not been taken out is in the queue, in put order — `produced = dequeued ++ q` for
+both queues in every reachable configuration. -/
+theorem C13_two_fifo {cap1 cap2 bm1 bm2 mw : Nat} {ns : Option Nat} {fwd ff : Bool} {inputs : List InSpec}
+    {gens : List Nat} {c : Piter2.Cfg} (h : Reachable F (initF cap1 cap2 bm1 bm2 mw ns fwd ff inputs gens) c) :
+    c.s1.produced = c.s1.dequeued ++ c.s1.q ∧ c.s2.produced = c.s2.dequeued ++ c.s2.q :=
+  fifo_reachable h rfl rfl
+
+open MlModel.Queue (seqOf) in
+/-- **exactly-once delivery out of the output queue** (every schedule, early stop and failures included): in every
+reachable configuration the elements the second-level tasks have put into the OUTPUT queue are, as a multiset, exactly:
+what the caller holds (delivered `received`, collected in the running `get_batch`, in hand) ++ what the caller dropped
+(`lost`: the partial batch of a raising `get_batch`, the surplus of the batch that reached `num_steps`) ++ what is still
+queued.  Nothing is delivered twice, nothing disappears silently. -/
+theorem C13_two_output_exactly_once {cap1 cap2 bm1 bm2 mw : Nat} {ns : Option Nat} {fwd ff : Bool}
+    {inputs : List InSpec} {gens : List Nat} {c : Piter2.Cfg}
+    (h : Reachable F (initF cap1 cap2 bm1 bm2 mw ns fwd ff inputs gens) c) {t : Th} (ht : c.ths[0]? = some t) :
+    List.Perm c.s2.produced (seqOf t.b ++ c.s2.lost ++ c.s2.q) := by
+  have hg0 := good_initF cap1 cap2 bm1 bm2 mw ns fwd ff inputs gens
+  have ho : OutInv (initF cap1 cap2 bm1 bm2 mw ns fwd ff inputs gens) := by
+    intro u hu
+    simp only [initF, Piter2.init, List.getElem?_cons_zero, Option.some.injEq] at hu
+    subst hu
+    simp [mkCons, seqOf, Queue.inHand, Queue.inHandPc, initF, Piter2.init]
+  have := out_reachable h hg0 ho t ht
+  rw [(C13_two_fifo h).2]
+  exact this.append_right _
 
 /-- test (by `decide`), non-vacuity of `C13_two_no_deadlock` and `C13_two_stuck_all_parked`: two inputs, one
 `iterator_fn` task, FIFO pool with 3 workers, both queues of capacity 1 — a complete run (100 steps) ends in a
